@@ -52,6 +52,83 @@ def load_fn(name):
     return ast.parse(code).body[0], code
 
 
+def job_wrapper_sizes():
+    """radial_solver (Python-visible wrapper): the guards executed before any C-level access force every array to the length of the radius array and every per-layer tuple to the number
+    of layers. Sizes are z3 Ints; asserts / `if ...: raise` guards up to the first allocation are the path condition."""
+    fn, code = load_fn('radial_solver')
+    arrays = ['radius_array', 'density_array', 'gravity_array', 'bulk_modulus_array', 'complex_shear_modulus_array']
+    tuples = ['layer_types', 'is_static_by_layer', 'is_incompressible_by_layer', 'upper_radius_by_layer']
+    env = {}
+    SZ = {a: z3.Int('size_' + a) for a in arrays}
+    LN = {t: z3.Int('len_' + t) for t in tuples}
+
+    def ev(e):
+        if isinstance(e, ast.Attribute) and e.attr == 'size' and isinstance(e.value, ast.Name) and e.value.id in SZ:
+            return SZ[e.value.id]
+        if isinstance(e, ast.Call) and getattr(e.func, 'id', None) == 'len' and isinstance(e.args[0], ast.Name) and e.args[0].id in LN:
+            return LN[e.args[0].id]
+        if isinstance(e, ast.Name) and e.id in env:
+            return env[e.id]
+        if isinstance(e, ast.Constant) and isinstance(e.value, int):
+            return z3.IntVal(e.value)
+        if isinstance(e, ast.Compare) and len(e.ops) == 1:
+            l_, r_ = ev(e.left), ev(e.comparators[0])
+            if l_ is None or r_ is None:
+                return None
+            return {ast.Eq: l_ == r_, ast.NotEq: l_ != r_, ast.Lt: l_ < r_, ast.LtE: l_ <= r_, ast.Gt: l_ > r_, ast.GtE: l_ >= r_}.get(type(e.ops[0]))
+        if isinstance(e, ast.BoolOp):
+            vs = [ev(v) for v in e.values]
+            if any(v is None for v in vs):
+                return None
+            return z3.And(*vs) if isinstance(e.op, ast.And) else z3.Or(*vs)
+        if isinstance(e, ast.UnaryOp) and isinstance(e.op, ast.Not):
+            v = ev(e.operand)
+            return None if v is None else z3.Not(v)
+        return None
+    pc = [v >= 0 for v in list(SZ.values()) + list(LN.values())]
+    guards = []
+    for st in fn.body:
+        txt = ast.unparse(st)
+        if 'allocate_mem' in txt or isinstance(st, (ast.For, ast.While)) or 'cf_radial_solver' in txt:
+            break
+        if isinstance(st, ast.Assign) and len(st.targets) == 1 and isinstance(st.targets[0], ast.Name):
+            v = ev(st.value)
+            if v is not None:
+                env[st.targets[0].id] = v
+        elif isinstance(st, ast.Assert):
+            c = ev(st.test)
+            if c is not None:
+                pc.append(c)
+                guards.append(txt[:80])
+        elif isinstance(st, ast.If) and st.body and isinstance(st.body[0], ast.Raise) and not st.orelse:
+            c = ev(st.test)
+            if c is not None:
+                pc.append(z3.Not(c))
+                guards.append(txt.split('\n')[0][:80])
+    goal = z3.And(*[SZ[a] == SZ['radius_array'] for a in arrays[1:]] + [LN[t] == LN['layer_types'] for t in tuples[1:]])
+
+    def rp(md):
+        short = {'density_array': 'density', 'gravity_array': 'gravity', 'bulk_modulus_array': 'bulk', 'complex_shear_modulus_array': 'shear'}
+        tshort = {'is_static_by_layer': 'is_static', 'is_incompressible_by_layer': 'is_incompressible', 'upper_radius_by_layer': 'upper_radius'}
+        bad_arr = [a for a in arrays[1:] if md.get('size_' + a) != md.get('size_radius_array')]
+        bad_tup = [t for t in tuples[1:] if md.get('len_' + t) != md.get('len_layer_types')]
+        outs = []
+        for a in bad_arr:
+            r = real_solver({'layers': [['solid', True, False], ['solid', True, False]], 'truncate': short[a]})
+            outs.append((a, 'CRASHED' if r.get('crashed') else r.get('exception'), r.get('success')))
+        for t in bad_tup:
+            r = real_solver({'layers': [['solid', True, False], ['solid', True, False]], 'short_tuple': tshort[t]})
+            outs.append((t, 'CRASHED' if r.get('crashed') else r.get('exception'), r.get('success')))
+        accepted = [o for o in outs if o[1] is None or o[1] == 'CRASHED']
+        return bool(accepted), 'real radial_solver called with a too-short %s: (argument, exception, success) = %r' % (', '.join(bad_arr + bad_tup), outs)
+    res = [discharge(Obligation('radial_solver: the guards before the first allocation (%d found) force all five arrays to one length and all four per-layer tuples to one length' % len(guards), goal, pc,
+                                with_axioms=False, with_dens=False, replay=rp, key='wrapper:sizes'))]
+    so = z3.Solver()
+    so.add(pc)
+    res.append({'name': 'wrapper sizes [reachability twin]', 'key': 'twin', 'twin': True, 'verdict': str(so.check()), 'solver_s': 0.0, 'info': {'guards': guards}})
+    return {'results': res, 'encoded': loader.ENCODED, 'label': 'wrapper sizes'}
+
+
 def job_skeleton(fname):
     fn, code = load_fn(fname)
     cfg = skeleton.Config(scale_calls=['cf_non_dimensionalize_physicals'], restore_calls=['cf_redimensionalize_physicals'], param_bools=['nondimensionalize', 'raise_on_fail'],
@@ -102,6 +179,25 @@ def job_skeleton(fname):
     goal = z3.Not(z3.Or(*[z3.And(*(e.pc + [rof])) for e in bad_ret])) if bad_ret else z3.BoolVal(True)
     results.append(discharge(Obligation('%s: with raise_on_fail every failure path raises (no return with error = True and raise_on_fail)' % fname, goal, [], with_axioms=False, with_dens=False,
                                         replay=lambda md: (True, 'a failure path returns normally although raise_on_fail is set'), key='protocol:raise_on_fail:%s' % fname)))
+    # (3b) a failure site that was passed without raising (raise_on_fail off) must leave the error flag set, so that the solution object reports success = False
+    silent = [e for e in exits if e.kind in ('return', 'fallthrough') and any(t.startswith('guard-off:raise_on_fail@') for t in e.state.trace) and e.state.flags.get('error') is not True]
+    lines_ = sorted({t for e in silent for t in e.state.trace if t.startswith('guard-off:raise_on_fail@')})
+
+    def rp3b(md):
+        # public-API replay: a singular surface system (single static-liquid layer at degree 1) must be reported as a failure
+        r = real_solver({'layers': [['liquid', True, False]], 'degree_l': 1, 'raise_on_fail': False, 'solve_for': ['tidal']})
+        if r.get('crashed'):
+            return True, 'real solver crashed: %r' % r
+        witness = 'failure site(s) %s passed with raise_on_fail off reach a normal return with error unset (current source)' % lines_
+        if r.get('exception'):
+            return False, witness + '; the public-API recipe raised %s instead' % r.get('exception')
+        bad = bool(r.get('success')) and not r.get('finite', True)
+        span = loader.SPANS.get((SOLVER, fname)) or pyx2py.translit_function(open(os.path.join(REPO, SOLVER)).read(), fname)[1]
+        if not replay.compiled_in_sync(SOLVER, span)[0]:
+            return True, witness + '; compiled module not in sync with solver.pyx, path witness only'
+        return bad, witness + '; real radial_solver(single static liquid layer, l=1, raise_on_fail=False): success=%s message=%r finite result=%s' % (r.get('success'), r.get('message'), r.get('finite'))
+    results.append(discharge(Obligation('%s: a failure site passed with raise_on_fail off always leaves error = True (the solution reports success = False)' % fname,
+                                        z3.Not(z3.Or(*[z3.And(*e.pc) for e in silent])) if silent else z3.BoolVal(True), [], with_axioms=False, with_dens=False, replay=rp3b, key='protocol:error-flag:%s' % fname)))
     # (4) exactly one restore after a scale on every normal return
     multi = [e for e in exits if e.kind == 'return' and e.state.restores > 1]
     results.append(discharge(Obligation('%s: no path restores the arrays more than once' % fname, z3.Not(z3.Or(*[z3.And(*e.pc) for e in multi])) if multi else z3.BoolVal(True), [],
@@ -172,7 +268,7 @@ def job_dynamic(cfg, expect):
 
 
 def main():
-    jobs = [(job_skeleton, {'fname': 'cf_radial_solver'}), (job_skeleton, {'fname': 'radial_solver'}), (job_solution_object, {})]
+    jobs = [(job_skeleton, {'fname': 'cf_radial_solver'}), (job_skeleton, {'fname': 'radial_solver'}), (job_solution_object, {}), (job_wrapper_sizes, {})]
     dyn = [({'layers': [['solid', True, False], ['liquid', False, False]], 'solve_for': ['tidal']}, 'liquid-dynamic-surface'),
            ({'layers': [['solid', True, False], ['liquid', True, False]], 'solve_for': ['tidal']}, 'liquid-static-surface'),
            ({'layers': [['solid', False, False]], 'solve_for': ['tidal', 'loading', 'free']}, 'solid-3types'),
